@@ -749,6 +749,39 @@ example : schemaPostInit exEnv { schemaPath := "s.graphql", targetFilePath := "s
 example : schemaPostInit exEnv { schemaPath := "s.graphql", targetFilePath := .int 1, missing := ["plugins"] } =
     .error (.typeErrorAsMissing ["plugins"]) := by decide
 
+/-- a base name that is only a dot plus an extension (`out/.py`, `.graphql`, `.GQL`) has NO file type
+    (`PurePath.suffix` is empty for it): whatever the directory part, it is refused as "missing a file type" -/
+theorem dot_only_name_refused (f : String) (h : pathSuffix f = []) : targetFileCheck f = some (.targetNoFileType f) := by
+  simp [targetFileCheck, h]
+
+theorem dot_only_name_violates (env : Env) (s : SchemaSettings) (f : String) (hs : s.targetFilePath = .str f)
+    (h : pathSuffix f = []) : ViolatesS env s .targetFileType := by
+  simp only [ViolatesS]
+  rintro ⟨g, hg, hgood⟩
+  rw [hs] at hg
+  injection hg with hg
+  subst hg
+  simp [GoodTarget, h] at hgood
+
+example : pathSuffix "out/.py" = [] ∧ pathSuffix ".graphql" = [] ∧ pathSuffix ".GQL" = [] ∧ pathSuffix "a.b/.gql" = [] ∧
+    pathSuffix "out/..py" = ['.', 'p', 'y'] := by decide
+example : schemaPostInit exEnv { schemaPath := "s.graphql", targetFilePath := "out/.py" } =
+    .error (.targetNoFileType "out/.py") := by decide
+example : schemaPostInit exEnv { schemaPath := "s.graphql", targetFilePath := ".GQL" } =
+    .error (.targetNoFileType ".GQL") := by decide
+
+/-- the operations are validated as ONE document (`validate(schema, document, rules)` on everything
+    `queries_path` holds - fragments-only documents and rules that need the whole document, such as unique
+    operation names, included): whenever that reports an error and the files loaded, `get_graphql_queries`
+    raises InvalidOperationForSchema carrying every message -/
+theorem invalid_document_refused (q : QueriesOracle) (h : loadSource q.src = .ok ()) (hv : q.validationErrors ≠ []) :
+    loadQueries q = .error (.codegen "InvalidOperationForSchema" ("\n\n".intercalate q.validationErrors)) := by
+  unfold loadQueries
+  simp only [bind, Except.bind, pure, Except.pure, throw, throwThe, MonadExceptOf.throw, h]
+  cases hq : q.validationErrors with
+  | nil => exact absurd hq hv
+  | cons a l => simp
+
 theorem valid_accepted_schema (env : Env) (s : SchemaSettings) (h : ∀ k, ¬ ViolatesS env s k) :
     schemaPostInit env s = .ok (finalizeSchema env s) := by
   have : firstError (evalSchemaCheck env s) SchemaCheck.order = none := by
